@@ -14,6 +14,7 @@ import (
 	"bytes"
 	stdjson "encoding/json"
 	"fmt"
+	"math"
 	"os"
 	"reflect"
 	"sort"
@@ -50,8 +51,8 @@ func govcKinds() []govcKind {
 		{"int", reflect.TypeOf(int(0)), []interface{}{nil, int(-7)}, true},
 		{"int8", reflect.TypeOf(int8(0)), []interface{}{nil, int8(-8)}, true},
 		{"uint16", reflect.TypeOf(uint16(0)), []interface{}{nil, uint16(9)}, true},
-		{"float32", reflect.TypeOf(float32(0)), []interface{}{nil, float32(1.5)}, true},
-		{"float64", reflect.TypeOf(float64(0)), []interface{}{nil, float64(2.5)}, true},
+		{"float32", reflect.TypeOf(float32(0)), []interface{}{nil, float32(1.5), float32(math.Inf(1)), float32(math.Inf(-1)), float32(math.NaN())}, true},
+		{"float64", reflect.TypeOf(float64(0)), []interface{}{nil, float64(2.5), math.Inf(1), math.Inf(-1), math.NaN()}, true},
 		{"bool", reflect.TypeOf(false), []interface{}{nil, true}, true},
 		{"string", reflect.TypeOf(""), []interface{}{nil, "s<\"x"}, true},
 		{"bytes", reflect.TypeOf([]byte(nil)), []interface{}{nil, []byte{}, []byte("ab")}, false},
@@ -168,6 +169,47 @@ func TestGovcBounded(t *testing.T) {
 			}
 		}
 	}
+	// map key types: supported ones give a valid object, the others an error, never an unquoted or null member name
+	one, str := 1, "k"
+	pone := &one
+	maps := []interface{}{
+		map[string]int{"": 1, "a\"b": 2}, map[int8]int{-128: 1, 127: 2}, map[uint64]int{0: 1, math.MaxUint64: 2}, map[uintptr]int{1 << 40: 1},
+		map[*int]string{&one: "a"}, map[*int]string{nil: "a"}, map[*int]string{}, map[*string]string{&str: "a", nil: "b"}, map[**int]int{&pone: 1},
+		map[bool]int{true: 1}, map[float64]int{1.5: 1}, map[float32]int{2: 1}, map[[2]int]int{{1, 2}: 1}, map[govcInner]int{{X: 1}: 1},
+		map[govcTextV]int{{4}: 1}, map[*govcTextV]int{{4}: 1, nil: 2}, map[interface{}]int{1: 1}, map[interface{}]int{"s": 1}, map[interface{}]int{},
+		map[stdjson.Number]int{"12": 1}, map[complex64]int{1: 1}, map[chan int]int{nil: 1},
+	}
+	for _, m := range maps {
+		wrapped := []interface{}{m, govcPtrTo(m), []interface{}{m}, map[string]interface{}{"m": m}, struct {
+			A int         `json:"a"`
+			M interface{} `json:"m,omitempty"`
+			Z int         `json:"z"`
+		}{1, m, 2}}
+		for wi, w := range wrapped {
+			what := fmt.Sprintf("map type %T value %v wrap=%d", m, m, wi)
+			outs := map[string][]byte{}
+			errs := map[string]error{}
+			outs["Marshal"], errs["Marshal"] = Marshal(w)
+			outs["MarshalIndent"], errs["MarshalIndent"] = MarshalIndent(w, "", " ")
+			outs["MarshalNoEscape"], errs["MarshalNoEscape"] = MarshalNoEscape(w)
+			outs["MarshalWithOption(UnorderedMap)"], errs["MarshalWithOption(UnorderedMap)"] = MarshalWithOption(w, UnorderedMap())
+			var buf bytes.Buffer
+			errs["Encoder.Encode"] = NewEncoder(&buf).Encode(w)
+			outs["Encoder.Encode"] = buf.Bytes()
+			for ep, out := range outs {
+				n++
+				if errs[ep] != nil {
+					if _, e := stdjson.Marshal(w); e == nil {
+						record(ep+"-error-on-encodable-map-key-type", what+" err="+errs[ep].Error())
+					}
+					continue
+				}
+				if !stdjson.Valid(out) {
+					record(ep+"-invalid-output-map-key-type", fmt.Sprintf("%s out=%q", what, out))
+				}
+			}
+		}
+	}
 	var ks []string
 	for k := range classes {
 		ks = append(ks, k)
@@ -176,5 +218,5 @@ func TestGovcBounded(t *testing.T) {
 	for _, k := range ks {
 		fmt.Printf("BOUNDED-CLASS %s example: %s\n", k, classes[k])
 	}
-	fmt.Printf("BOUNDED-OK well-formedness of encoder output over struct shapes: %d encodings (31 field kinds x tags x %d layouts x values x 5 wrappings x 5 entry points), %d disagreement classes\n", n, len(layouts), len(ks))
+	fmt.Printf("BOUNDED-OK well-formedness of encoder output over struct shapes: %d encodings (31 field kinds x tags x %d layouts x values incl. non-finite floats x 5 wrappings x 5 entry points; 22 maps over supported and unsupported key types x 5 wrappings x 5 entry points), %d disagreement classes\n", n, len(layouts), len(ks))
 }
